@@ -1,5 +1,6 @@
 import PiqpProofs.Basic
 import PiqpModel.Api
+import PiqpProofs.Garbage
 
 /-!
 # C07 — results are a function of the inputs only
@@ -20,5 +21,92 @@ theorem instances_independent (cs : Consts K) (sqrtF : K → K) (poison : K)
     let stepB := fun (s : ApiState K × ApiState K) => (s.1, (apiStep cs sqrtF poison s.2 cb).1)
     stepA (stepB (a, b)) = stepB (stepA (a, b)) := by
   simp
+
+
+/-! ## results do not depend on the content of uninitialised memory
+
+The model makes "previous contents of heap and stack memory" explicit: every buffer slot the C++ code leaves unwritten
+(`x_lb_n`/`x_ub_n` beyond `n_lb`/`n_ub`, the residual and step workspaces before their first use, `h` and `b` when absent)
+is filled from the parameter `poison` of `apiStep`.  `ApiRel st st'` (PiqpProofs/Garbage.lean) says two interface states
+are equal **except** in exactly those slots, whose content is arbitrary — per slot, not just a uniform fill.  The theorems
+below show that such a difference is never observable: whatever the garbage is, at whichever call it changes, every
+outcome, status, result vector and diagnostic is the same.
+-/
+
+/-- everything a caller can read back after a call: dimensions, the 13 result vectors, `info` -/
+structure Obs (K : Type) where
+  n : Nat
+  p : Nat
+  m : Nat
+  x : Array K
+  y : Array K
+  z : Array K
+  z_lb : Array K
+  z_ub : Array K
+  s : Array K
+  s_lb : Array K
+  s_ub : Array K
+  zeta : Array K
+  lambda : Array K
+  nu : Array K
+  nu_lb : Array K
+  nu_ub : Array K
+  info : Info K
+
+def observe (st : ApiState K) : Option (Obs K) :=
+  st.sol.map fun a =>
+    { n := a.n, p := a.p, m := a.m, x := a.s.w.x.toArray, y := a.s.w.y.toArray, z := a.s.w.z.toArray,
+      z_lb := a.s.w.z_lb.toArray, z_ub := a.s.w.z_ub.toArray, s := a.s.w.s.toArray, s_lb := a.s.w.s_lb.toArray,
+      s_ub := a.s.w.s_ub.toArray, zeta := a.s.w.zeta.toArray, lambda := a.s.w.lambda.toArray, nu := a.s.w.nu.toArray,
+      nu_lb := a.s.w.nu_lb.toArray, nu_ub := a.s.w.nu_ub.toArray, info := a.s.info }
+
+/-- the observable trace of a call history; call number `k` finds the garbage `garbage k` in every slot it does not write -/
+def trace (cs : Consts K) (sqrtF : K → K) (garbage : Nat → K) : Nat → ApiState K → List (Call K) → List (Outcome × Option (Obs K))
+  | _, _, [] => []
+  | k, st, c :: rest =>
+    let r := apiStep cs sqrtF (garbage k) st c
+    (r.2, observe r.1) :: trace cs sqrtF garbage (k + 1) r.1 rest
+
+/-- states that differ only in dead slots look the same to the caller -/
+theorem observe_rel {st st' : ApiState K} (h : ApiRel st st') : observe st = observe st' := by
+  obtain ⟨set, sol⟩ := st
+  obtain ⟨set', sol'⟩ := st'
+  obtain ⟨_, hsol⟩ := h
+  simp only at hsol
+  rcases hsol with ⟨rfl, rfl⟩ | ⟨a, a', rfl, rfl, n, p, m, hn, s, s', mP, mA, mG, perm, rfl, rfl, hrel⟩
+  · rfl
+  · obtain ⟨vl, vu, r, d, rx, ry, rz, rzl, rzu, rfl, hl, hu⟩ := hrel
+    rfl
+
+/-- a state is related to itself -/
+theorem apiRel_refl (st : ApiState K) : ApiRel st st := by
+  obtain ⟨set, sol⟩ := st
+  refine ⟨rfl, ?_⟩
+  cases sol with
+  | none => exact Or.inl ⟨rfl, rfl⟩
+  | some a =>
+    obtain ⟨n, p, m, hn, s, mP, mA, mG, perm⟩ := a
+    exact Or.inr ⟨_, _, rfl, rfl, n, p, m, hn, s, s, mP, mA, mG, perm, rfl, rfl,
+      ⟨s.data.lb.val, s.data.ub.val, s.w.r, s.w.d, s.w.rx_nr, s.w.ry_nr, s.w.rz_nr, s.w.rz_lb_nr, s.w.rz_ub_nr, rfl,
+        HeadEq.rfl' _ _, HeadEq.rfl' _ _⟩⟩
+
+/-- **C07, memory-content half.** Two executions of the same call history whose states differ only in the content of
+    never-written slots (arbitrary, per slot), and which meet different garbage at every call, return the same outcomes,
+    statuses, result vectors and diagnostics after every call. -/
+theorem garbage_independent_rel (cs : Consts K) (sqrtF : K → K) (g g' : Nat → K) (calls : List (Call K)) :
+    ∀ (k : Nat) (st st' : ApiState K), ApiRel st st' → trace cs sqrtF g k st calls = trace cs sqrtF g' k st' calls := by
+  induction calls with
+  | nil => intro k st st' _; rfl
+  | cons c rest ih =>
+    intro k st st' h
+    have hstep := apiStep_rel cs sqrtF (g k) (g' k) st st' c h
+    simp only [trace]
+    rw [hstep.2, observe_rel hstep.1, ih (k + 1) _ _ hstep.1]
+
+/-- **C07**: from any state, the observable trace of a call history does not depend on what uninitialised memory
+    contains at any of the calls. -/
+theorem garbage_independent (cs : Consts K) (sqrtF : K → K) (g g' : Nat → K) (st : ApiState K) (calls : List (Call K)) :
+    trace cs sqrtF g 0 st calls = trace cs sqrtF g' 0 st calls :=
+  garbage_independent_rel cs sqrtF g g' calls 0 st st (apiRel_refl st)
 
 end Piqp.C07
